@@ -262,6 +262,18 @@ main(void)
 #endif
         holding_across_stop = cl_mapped;
 #endif
+#ifdef POLL_DONE
+        /* the finite acquisition finishes on its own (every worker runs to completion) and the client
+         * polls the state before it calls stop/abort: the call must still flush what the client has
+         * not consumed, whatever the poll answered */
+        verif_run_pending(&RT->video[0].source.thread);
+        verif_run_pending(&RT->video[0].filter.thread);
+        verif_run_pending(&RT->video[0].sink.thread);
+        {
+            enum DeviceState polled = acquire_get_state(rt);
+            VASSERT(polled == DeviceState_Armed || polled == DeviceState_Running, "C08: state polled after the workers finished");
+        }
+#endif
 #ifdef FIX_ABORT
         bool_t use_abort = FIX_ABORT;
 #else
